@@ -13,7 +13,7 @@ LEVEL_TEXT = ("TLA+ module XmlDoc defines the documented subset twice, independe
               "and emits [document, tree] cases.  Every such document is read by the real readXML (ASan+UBSan build, file on disk) and the "
               "returned tree is compared with the tree TLC computed.  For everything else - the same short-string set enumerated natively, "
               "every truncation / deletion / substitution / insertion (and truncation followed by one more symbol) of sampled generated "
-              "documents over a 25-symbol alphabet incl. NUL, VT, FF, 0x1C-0x1F, DEL, 0x80 and 0xFF (always among them documents with blank-padded "
+              "documents over a 27-symbol alphabet incl. dash runs, NUL, VT, FF, 0x1C-0x1F, DEL, 0x80 and 0xFF (always among them documents with blank-padded "
               "text), every character-data run of length <= 3 over { t, space, LF, tab, VT, FF } in three positions, seeded random token and byte strings, documents nested 2000 deep - only the way the call ends is constrained "
               "(returned, or std::runtime_error; the admissible set is supplied by the specification); every other ending (sanitizer report, "
               "signal, other exception type, no progress for 120 s) is attributed to its input in a forked child, judged and classified by "
@@ -21,10 +21,11 @@ LEVEL_TEXT = ("TLA+ module XmlDoc defines the documented subset twice, independe
               "documents with per-occurrence random layout are read by the real code and TLC's reference parser decides whether the "
               "observed tree is the tree of the document")
 LEVEL_NOTE = ("exhaustive over: 4 core trees (two attributes, both quote characters inside values, bare child, text beside two children, "
-              "depth 3) x all 15 552 choice vectors (4 headers x 2x2 quote styles x attribute order x <a/> or <a></a> x 3 in-tag whitespace "
-              "forms x end-tag whitespace x 3 content whitespace forms x 5 comment forms x 3 text positions, minus the combinations of the two "
+              "depth 3) x all 17 280 choice vectors (4 headers x 2x2 quote styles x attribute order x <a/> or <a></a> x 3 in-tag whitespace "
+              "forms x end-tag whitespace x 3 content whitespace forms x 6 comment forms x 3 text positions, minus the combinations of the "
               "separately classed constructs; choices that cannot change the document of a tree are fixed); all trees of depth <= 2, "
-              "fan-out <= 2, 2 names, 9 attribute lists, 3 contents with children from 8 (thorough 24) leaves x 7 style profiles; every "
+              "fan-out <= 2, 2 names, 9 attribute lists, 3 contents with children from 8 (thorough 24) leaves x 8 style profiles; every comment body built from dash runs of 0..5 at its start, middle and end (and bodies of dashes only, '>' "
+              "after a single dash) in 6 positions incl. one where a missed terminator swallows a sibling; every "
               "string of length <= 6 (thorough 7) over { < > / = \" a space ! }; every content run of length <= 3 over 6 symbols x 3 positions (trees "
               "for the runs inside the subset, the ending only for runs with VT / FF).  Sampled only: mutations (seeded sample of the generated "
               "documents), random strings, random larger documents.  Not decided: totality over all byte strings (only the enumerated / "
@@ -45,7 +46,25 @@ JAVA_ENV = {"JAVA_TOOL_OPTIONS": "-Xss512m"}      # the recursive scans of XmlDo
 MUT_ALPHABET = ["<", ">", "/", "=", "\"", "a", " ", "!", "'", "\\", "-", "?", "\x00", "\xff", "&", "\n", "x",
                 # the byte-class boundaries of the C locale that the reader's isspace / isalpha / isdigit calls tell apart and its own
                 # isWhite() does not: VT and FF (isspace only), the separators 0x1C-0x1F, DEL, the first high byte
-                "\x0b", "\x0c", "\x1c", "\x1d", "\x1e", "\x1f", "\x7f", "\x80"]
+                "\x0b", "\x0c", "\x1c", "\x1d", "\x1e", "\x1f", "\x7f", "\x80",
+                # dash runs (a run put before the "-->" of a comment makes a longer closing run)
+                "--", "---"]
+
+
+def closing_dash_runs(doc):
+    """lengths of the dash runs that stand directly before the '>' ending each comment of a document (a comment ends at the first
+    "-->" after its opener); used by the vacuity guard only"""
+    out, i = [], doc.find("<!--")
+    while i >= 0:
+        e = doc.find("-->", i + 4)
+        if e < 0:
+            break
+        k = e + 2
+        while k - 1 >= i + 4 and doc[k - 1] == "-":
+            k -= 1
+        out.append(e + 2 - k)
+        i = doc.find("<!--", e + 3)
+    return out
 PADDED_TEXT = re.compile(r">[ \t\r\n]+[^<\s][^<]*[ \t\r\n]+<")              # a text run with blanks on both sides
 ODD_AFTER_BLANK = re.compile(r">[^<>]*[ \t\r\n][^<>]*[\x0b\x0c][^<>]*<")    # VT / FF in element content after a blank
 RANDOM_TOKENS = ["<", ">", "/", "=", "\"", "'", " ", "\n", "a", "b1", "<a", "</a>", "<a>", "/>", "<!--", "-->", "<?xml", "?>", " q=\"v\"",
@@ -320,16 +339,24 @@ def rand_name(rnd):
 
 
 def rand_doc(rnd, depth):
-    rare = rnd.choice(["", "", "", "", "", "", "endws", "gtcomment"])      # at most one of the constructs with a class of their own
+    rare = rnd.choice(["", "", "", "", "", "dash", "dash", "endws", "gtcomment"])      # at most one of the constructs with a class of their own
 
     def ws(required=False):
         w = rnd.choice(WSS)
         return w if (w or not required) else " "
 
     def comment():
-        body = "".join(rnd.choice(TEXTCH + "<&") for _ in range(rnd.randint(0, 12))).replace("--", "- ")
-        if body.endswith("-"):
-            body += " "
+        body = "".join(rnd.choice(TEXTCH + "<&") for _ in range(rnd.randint(0, 12)))
+        if rare == "dash" and rnd.random() < 0.6:      # dash runs at the start, inside and at the end of the body (banner style comments)
+            k = rnd.randint(0, len(body))
+            body = "-" * rnd.randint(0, 5) + body[:k] + "-" * rnd.randint(0, 5) + body[k:] + "-" * rnd.randint(0, 5)
+        while "-->" in body or "<!--" in body:
+            body = body.replace("-->", "-- >").replace("<!--", "<!- -")
+        if rare != "dash":
+            while "---" in body:
+                body = body.replace("---", "- -")
+            if body.endswith("-"):
+                body += " "
         if rare == "gtcomment" and rnd.random() < 0.3:
             body = rnd.choice([">", "->"]) + body
         elif body.startswith(">") or body.startswith("->"):
@@ -404,7 +431,7 @@ def do_run(cx, quick, rnd):
     # ---- 1. TLC: laws of the specification + cases -------------------------------------------------------
     cfg = "XmlDocGen_quick.cfg" if quick else "XmlDocGen_thorough.cfg"
     cases = sort_keys(funcheck.gen_cases(chk, SPEC, "XmlDocGen", cfg, "c16-gen", workers=16, timeout=3000, env=dict(JAVA_ENV, XML_VT="\x0b"),
-                                         what="RoundTrip, WellFormed, PrefixLaw, ShortLaw, ContentLaw on every slice; one case per document of the subset"))
+                                         what="RoundTrip, WellFormed, PrefixLaw, ShortLaw, ContentLaw, DashLaw on every slice; one case per document of the subset"))
     reads = [c for c in cases if c["a"] == "Read"]
     enums = [c for c in cases if c["a"] == "Enumerate"]
     policy = [c for c in cases if c["a"] == "Policy"]
@@ -511,7 +538,11 @@ def do_run(cx, quick, rnd):
 
     chk.cov["evaluations"] = cx.calls
     chk.require_actions(["Read", "Enumerate", "Mutations", "Batch", "Random", "Nest"])
-    for cls in ("subset", "subset,ws-in-end-tag", "subset,comment-begins-with-gt"):
+    runs = [r for c in reads for r in closing_dash_runs(c["arg"]["doc"])]
+    chk.cov["comments_closed_by_dash_run"] = {"odd>=3": sum(1 for r in runs if r >= 3 and r % 2 == 1), "even>=4": sum(1 for r in runs if r >= 4 and r % 2 == 0)}
+    if min(chk.cov["comments_closed_by_dash_run"].values()) < 300:
+        raise tla.InfraError("vacuity guard: too few comments closed by a dash run were read: %s" % chk.cov["comments_closed_by_dash_run"])
+    for cls in ("subset", "subset,ws-in-end-tag", "subset,comment-begins-with-gt", "subset,comment-ends-with-dash-run"):
         if not chk.cov["documents_by_class"].get(cls):
             raise tla.InfraError("vacuity guard: no generated document of class %s" % cls)
     chk.cov["rule"] = ("evaluation = one call of the real readXML on one file.  Distinct non-trivial inputs: distinct generated documents "
